@@ -52,7 +52,8 @@ CFG = PropCfg(
          "out-of-window frames (window edges 999..1002), frames half a number range away, keep-alives, data "
          "frames carrying ACK; positions around k*2^32 and 2^31; every 25th case is a malformed stream. "
          "distinct_nontrivial counts distinct cases in which something was rejected, a FIN was processed or "
-         "an acknowledgement was handled. suite C08sys (monitor): a case is one run of two real muxers over an "
+         "an acknowledgement was handled. suite C08sys (monitor): every reliable tube is shadowed by a silent unreliable tube "
+         "with the same identifier (a message read from it is a `stray`); a case is one run of two real muxers over an "
          "in-memory MsgConn pair with seeded loss (0-20%), duplication (0-20%), delay/reordering (0-30% of "
          "datagrams, up to 120 ms) and outages (quick: 0.2-1.5 s, thorough: also 12.5-15 s), 1-3 reliable tubes, "
          "both directions writing 1..6 chunks of 1..40000 bytes and closing; the trace written/read/closed/eof is "
